@@ -417,6 +417,11 @@ loop:
 			} else if index2 < index+1 || index2 > len(data) {
 				return nil, 0, ErrParseFrame
 			}
+			for _, c := range data[index+1 : index2] {
+				if c == '.' { // a '.' inside a label cannot be told from a label separator in the dotted name
+					return nil, 0, ErrParseFrame
+				}
+			}
 			*buffer = append(*buffer, '.')
 			*buffer = append(*buffer, data[index+1:index2]...)
 			index = index2
